@@ -555,6 +555,22 @@ theorem split_eq_unsplit (t : RType) (ht : t = .tlsa ∨ t = .smimea ∨ t = .ds
     rdataFromTokens t (a :: b :: c :: ts) o = rdataFromTokens t [a, b, c, ts.flatten] o :=
   split_invariance t ht a b c ts [ts.flatten] o (by simp)
 
+/-- **split invariance for CERT** (RFC 4398 §2.2: the base64 text "may be divided into any number
+of white-space-separated substrings, down to single base-64 digits"; repaired by 1479f5a): with at
+least one data item on both sides, the RDATA depends on the items only through their
+concatenation. -/
+theorem split_invariance_cert (a b c : List Nat) (ts ts' : List (List Nat)) (o : Option Name)
+    (hne : ts ≠ []) (hne' : ts' ≠ []) (h : ts.flatten = ts'.flatten) :
+    rdataFromTokens .cert (a :: b :: c :: ts) o = rdataFromTokens .cert (a :: b :: c :: ts') o := by
+  have e1 : ts.isEmpty = false := by cases ts <;> simp_all
+  have e2 : ts'.isEmpty = false := by cases ts' <;> simp_all
+  simp only [rdataFromTokens, nextTok, ZR.bind_ok, joinToks, h, e1, e2]
+
+/-- `QUJDREVG` = `ABCDEF`, whole or as `Q`, `UJ`, `DREVG` (a single digit, pieces that are not whole
+quanta) -/
+example : rdataFromTokens .cert [[49], [50], [51], [81], [85, 74], [68, 82, 69, 86, 71]] none =
+    .ok (.cert 1 2 3 [65, 66, 67, 68, 69, 70]) := by decide
+
 /-- ```
     www 60 TLSA 3 1 1 ( a1b ; odd
          2c3 d4 )
